@@ -911,6 +911,12 @@ func (d *drv) mutCases(signed map[string][]byte) {
 
 func init() {
 	core.Register("fmtmacho", func(c *core.Ctx) error {
+		if len(c.Args) >= 1 && c.Args[0] == "vfy-worker" { // fresh process per file, no recover: see vp.go
+			return vfyWorker(c.Args[1:])
+		}
+		if len(c.Args) == 2 && c.Args[0] == "corpus" { // writes the minimal negative-limit inputs into a directory
+			return corpusFiles(c.Args[1])
+		}
 		if _, err := loadCert(); err != nil {
 			return err
 		}
@@ -922,6 +928,13 @@ func init() {
 			return err
 		}
 		if err := d.verifyCases(); err != nil {
+			return err
+		}
+		d.vpDirectCases()
+		if err := d.vpBlobCases(); err != nil {
+			return err
+		}
+		if err := d.vpFileCases(); err != nil {
 			return err
 		}
 		files := d.e2eCases()
